@@ -7,6 +7,7 @@ self-tests, which analyse scratch copies).
 from __future__ import annotations
 
 import ast
+import re
 import json
 import os
 import sys
@@ -772,3 +773,57 @@ def program() -> Program:
     if _PROGRAM is None:
         _PROGRAM = Program()
     return _PROGRAM
+
+
+# ---------------------------------------------------------------------------------------------------------------
+# statement keys that survive a renaming of local variables
+_LOCALS_CACHE: Dict[int, Set[str]] = {}
+
+
+def local_names(fn: ast.AST) -> Set[str]:
+    """names bound inside a function (assignments, loop / comprehension / with / except targets, walrus) that are not parameters"""
+    k = id(fn)
+    if k in _LOCALS_CACHE:
+        return _LOCALS_CACHE[k]
+    a = getattr(fn, "args", None)
+    params: Set[str] = set()
+    if a is not None:
+        params = {x.arg for x in a.posonlyargs + a.args + a.kwonlyargs} | ({a.vararg.arg} if a.vararg else set()) | ({a.kwarg.arg} if a.kwarg else set())
+    out: Set[str] = set()
+    for n in ast.walk(fn):
+        if isinstance(n, ast.Name) and isinstance(n.ctx, (ast.Store, ast.Del)):
+            out.add(n.id)
+        elif isinstance(n, ast.ExceptHandler) and n.name:
+            out.add(n.name)
+    out -= params
+    _LOCALS_CACHE[k] = out
+    return out
+
+
+def norm_locals(text: str, fn: ast.AST) -> str:
+    """`text` (source of a statement of fn) with every local variable of fn replaced by `§`: a key for triage tables that does not
+    change when locals are renamed.  Attribute names, keyword names, parameters, globals and string contents are kept."""
+    import io
+    import tokenize as _tk
+    loc = local_names(fn)
+    if not loc:
+        return text
+    out: List[str] = []
+    try:
+        toks = list(_tk.generate_tokens(io.StringIO(text).readline))
+    except (_tk.TokenError, IndentationError, SyntaxError):
+        return re.sub(r"(?<![\w.])(" + "|".join(map(re.escape, sorted(loc, key=len, reverse=True))) + r")(?!\w)", "§", text)
+    prev = None
+    last_end = (1, 0)
+    for t in toks:
+        if t.type in (_tk.ENDMARKER, _tk.NEWLINE, _tk.NL, _tk.INDENT, _tk.DEDENT):
+            continue
+        if t.start[0] == last_end[0] and t.start[1] > last_end[1]:
+            out.append(" " * (t.start[1] - last_end[1]))
+        s_ = t.string
+        if t.type == _tk.NAME and s_ in loc and not (prev is not None and prev.string == "."):
+            s_ = "§"
+        out.append(s_)
+        prev = t
+        last_end = t.end
+    return "".join(out)
